@@ -144,8 +144,19 @@ where
         | .ok bld' => go bld' cs
         | .error e => .error e
 
-/-- `Syllable::try_from(u16)`: only zero is rejected. -/
-def tryFromU16 (v : Nat) : Option Nat := if v == 0 then none else some v
+/-- `Syllable::try_from(u16)` — since the repair of the C13 finding F47: zero is rejected, the empty pattern is
+    accepted, and any other value must have the empty-marker bit clear and every component index at most
+    `Bopomofo::<last symbol of the kind>.index()` (`tryFromBounds`; the tone bound is `TONE1`, the value 5 the builder
+    and `update` store for the first-tone mark, cf. F18).  `tryFromMarker = 0` is the shape before the repair. -/
+def tryFromU16 (v : Nat) : Option Nat :=
+  if v == 0 then none
+  else if tryFromMarker == 0 then some v
+  else if v == emptyPattern then some v
+  else if v &&& tryFromMarker != 0 || tryFromBounds.any (fun b => field b.1 b.2.1 v > indexOf b.2.2) then none
+  else some v
+
+/-- a 16-bit value that is (the code of) a `Syllable`: the type invariant since the repair of F47 -/
+def validCode (v : Nat) : Bool := (tryFromU16 v).isSome
 
 /-- `chewing_phone_to_bopomofo(phone, buf, len)` with a non-null buffer of `len` bytes:
     returns (return value, bytes written at the start of the buffer or none). -/
